@@ -198,14 +198,19 @@ func (s *streamWriter) init() {
 // TODO: is there a way that stream router can listen to event stream
 // instead of sending the event itself?
 func (s *streamWriter) Shutdown() {
-	evt := actor.RemoteUnreachableEvent{ListenAddr: s.writeToAddr}
-	s.engine.Send(s.routerPID, evt)
-	s.engine.BroadcastEvent(evt)
+	// Leave the registry before anybody is told: once the router has seen
+	// the event, its next message for this address spawns a new writer under
+	// the same id, which must be free by then. Otherwise that writer is
+	// rejected as a duplicate, its messages end up in this inbox and are
+	// lost, and the router keeps a PID that nobody is registered under.
 	if s.stream != nil {
 		s.stream.Close()
 	}
 	s.inbox.Stop()
 	s.engine.Registry.Remove(s.PID())
+	evt := actor.RemoteUnreachableEvent{ListenAddr: s.writeToAddr}
+	s.engine.Send(s.routerPID, evt)
+	s.engine.BroadcastEvent(evt)
 }
 
 func (s *streamWriter) Start() {
